@@ -201,12 +201,16 @@ func scenarioC14(rc *RunCtx) {
 	rapid.VerifResetProcessState() // every run starts from a cold process: the schedule must not depend on earlier runs
 	mon := getRaceMon()
 	mon.collect() // anything written before this run is not ours
-	nG := t.Int("c14.ng", 1, 4)
+	maxG, maxOps := 4, 6
+	if curTier == "thorough" && t.Chance("c14.deep", 25) {
+		maxG, maxOps = 7, 10
+	}
+	nG := t.Int("c14.ng", 1, maxG)
 	sigPct := []int{0, 8, 20}[t.Weighted("c14.sigpct", 3, 4, 2)]
 	r := &c14Run{pol: genPolicy(t), nested: t.Chance("c14.nested_cleanup", 40), lateJoin: t.Chance("c14.late_join", 30)}
 	nsig := 0
 	for g := 0; g <= nG; g++ {
-		n := t.Int("c14.nops", 1, 6)
+		n := t.Int("c14.nops", 1, maxOps)
 		var ops []int
 		for i := 0; i < n; i++ {
 			var k int
@@ -381,7 +385,7 @@ func scenarioC14(rc *RunCtx) {
 				hist = append(hist, porcupine.Operation{ClientId: o.G, Input: c14In{o.K}, Call: int64(o.Call), Output: out, Return: int64(o.Ret)})
 			}
 		}
-		if len(hist) > 0 && i < 6 {
+		if len(hist) > 0 && len(hist) <= 40 && i < 6 {
 			res := porcupine.CheckOperationsTimeout(c14Model, hist, 10*time.Second)
 			switch res {
 			case porcupine.Illegal:
